@@ -288,3 +288,33 @@ package stdlib
 //@   ensures result == itoa(len(app((*args)[0], context)))
 //@ func kfIsInt$1
 //@   ensures result == (if int_ok(app((*args)[0], context)) then "1" else "")
+
+// ---- C11: string tests return the tested value itself (or "") ----
+//@ smt
+//@ (declare-fun str_has_prefix (Str Str) Bool)
+//@ (declare-fun str_has_suffix (Str Str) Bool)
+//@ end
+//@ extern strings.HasPrefix
+//@   params (s, prefix)
+//@   pure
+//@   ensures result == str_has_prefix(s, prefix)
+//@ extern strings.HasSuffix
+//@   params (s, suffix)
+//@   pure
+//@   ensures result == str_has_suffix(s, suffix)
+//@ func kfPrefix$1
+//@   ensures result == (if str_has_prefix(app((*args)[0], context), app((*args)[1], context)) then app((*args)[0], context) else "")
+//@ func kfSuffix$1
+//@   ensures result == (if str_has_suffix(app((*args)[0], context), app((*args)[1], context)) then app((*args)[0], context) else "")
+//@ func kfLike$1
+//@   ensures result == (if str_contains(app((*args)[0], context), app((*args)[1], context)) then app((*args)[0], context) else "")
+
+// the integer arithmetic helpers fold their operator from the left over base-10 arguments:
+// after k arguments the accumulator is the fold of the first k (one step contract of the loop),
+// a non-integer argument yields <BAD-TYPE>, a rejected operand pair (division by zero) <VALUE>
+//@ func init$divi at "return a / b, true"
+//@   ensures [zero] b == 0 ==> !result1
+//@   ensures [quotient] b != 0 ==> result1 && result0 == tquo(a, b)
+//@ func init$modi at "return a % b, true"
+//@   ensures [zero] b == 0 ==> !result1
+//@   ensures [remainder] b != 0 ==> result1 && result0 == trem(a, b)
